@@ -36,18 +36,30 @@ ANCHORS = [
 RULE = ("honest PSBTs of random m-of-n wallets (1 <= m <= n <= 4; P2SH through create_multisig_psbt, P2WSH and "
         "P2SH-P2WSH through PSBT.create/update), 1..3 inputs, 1..3 outputs with or without change, summary requested "
         "with the PSBT's global xpubs and with a caller-supplied hdpubkey_map; for every honest PSBT every applicable "
-        "item of the tampering catalogue (17 items); the summary fields or REJECT are compared with the model; a case "
+        "item of the tampering catalogue (19 items); the summary fields or REJECT are compared with the model; a case "
         "is non-trivial always; distinct = distinct (PSBT bytes, hdpubkey_map) requests")
 CLAUSES = {
-    "fee = sum(inputs) - sum(outputs); spend + change + fee = sum(inputs)": "proved (summary_fee, summary_partition)",
+    "fee = sum(inputs) - sum(outputs); spend + change + fee = sum(inputs)":
+        "proved (summary_fee, summary_partition, summary_totals, summary_outputs, summary_single_change; "
+        "input_value_is_utxo_amount ties the summed values to the UTXO records PSBT.parse read)",
     "is_change => scriptPubKey is P2SH / P2WSH / P2SH-P2WSH of the attached script by hash":
-        "proved relative to hash160/sha256 (change_commits_by_hash); findings F11b, F11c fixed",
+        "proved relative to hash160 / sha256 (change_commits_by_hash; hypothesis: hash160 returns 20 bytes); findings F11b, F11c fixed",
     "is_change => script is m-of-n with the inputs' quorum, keys = exactly one derive of each declared cosigner at the stated path":
-        "proved (change_is_wallet_multisig); findings F11a, F11e fixed",
-    "tampering catalogue => rejected": "proved per item (tamper_*), correspondence on every item",
+        "proved (change_is_plain_multisig, change_keys_perm, change_one_key_per_cosigner, change_is_wallet_multisig); "
+        "findings F11a, F11e fixed (F11a_witness, F11e_witness show the defects with the repairs switched off); "
+        "the threshold m is only shown equal to the inputs' threshold (the code never range-checks it)",
+    "tampering catalogue => rejected":
+        "proved per item (tamper_swapped_spk, tamper_witness_script_spk, tamper_foreign_output_witness_script, "
+        "tamper_foreign_output_script_p2sh_p2wsh, tamper_foreign_input_script, tamper_foreign_input_witness_script, "
+        "tamper_foreign_input_script_p2sh_p2wsh, tamper_witness_utxo_on_legacy, tamper_prev_tx, tamper_utxo_amount, "
+        "tamper_missing_utxo, tamper_both_scripts_input, tamper_witness_script_without_witness_utxo, tamper_redeem_on_non_p2sh, "
+        "tamper_wrong_derivation_input/_output, tamper_foreign_fingerprint_input/_output, tamper_one_cosigner_change, "
+        "tamper_changed_quorum, tamper_not_plain_multisig, tamper_second_change, describe_refuses_invalid_input/_output); "
+        "correspondence on every item",
     "input metadata (UTXO, amount, scripts, derivations) must match the transaction":
-        "proved (input_utxo_matches, input_script_commits, input_keys_derive); findings F11d, F11f fixed; an altered amount of a "
-        "witness-only UTXO is not detectable by design (BIP143 signatures commit to it) and is outside the catalogue",
+        "proved (input_utxo_matches, input_script_commits, input_script_details, input_keys_derive, input_value_is_utxo_amount); "
+        "findings F11d, F11f, F11g fixed; an altered amount of a witness-only UTXO is not detectable by design (BIP143 "
+        "signatures commit to it) and is outside the catalogue",
 }
 TRUSTED = ["BIP32 public derivation is the abstract `derive`; the driver is given the real library's derivations",
            "hash160 / sha256 parameters; driver: Buidl.Model.Hash", "transaction codec: Buidl.Model.Tx (C04)",
@@ -57,9 +69,11 @@ ASSUMPTIONS = ["Python dict preserves insertion order", "round(fee / total * 100
 TAMPERS = ["swap_change_spk", "foreign_input_script", "foreign_output_script", "foreign_xpub", "foreign_fingerprint",
            "wrong_path_input", "wrong_path_output", "one_cosigner_change", "utxo_amount", "other_prev_tx",
            "changed_quorum", "second_change", "nonstandard_spk_with_hash", "extra_script_commands",
-           "witness_utxo_on_legacy", "missing_cosigner_key", "foreign_map_xpub"]
+           "witness_utxo_on_legacy", "missing_cosigner_key", "foreign_map_xpub",
+           "witness_script_without_witness_utxo", "redeem_on_native_segwit"]
 TAMPER_FINDING = {"swap_change_spk": "F11b", "one_cosigner_change": "F11a", "nonstandard_spk_with_hash": "F11c",
-                  "utxo_amount": "F11d", "extra_script_commands": "F11e", "witness_utxo_on_legacy": "F11f"}
+                  "utxo_amount": "F11d", "extra_script_commands": "F11e", "witness_utxo_on_legacy": "F11f",
+                  "witness_script_without_witness_utxo": "F11g", "redeem_on_native_segwit": "F11g"}
 
 
 def _setup():
@@ -358,6 +372,24 @@ def tamper(name, rng, b, raw):
         if rs_old not in body:
             return None
         return splice_input(raw, q, 0, kv(b"\x01", TxOut(real.amount, real.script_pubkey).serialize()) + body.replace(rs_old, rs_new))
+    if name in ("witness_script_without_witness_utxo", "redeem_on_native_segwit"):
+        # F11g: a p2wsh input whose multisig script PSBTIn.validate never compared with the ScriptPubKey
+        if st != "p2wsh" or w.n < 2:
+            return None
+        pi = q.psbt_ins[0]
+        ser_in = pi.serialize()
+        wu = kv(b"\x01", pi.prev_out.serialize())
+        ws_old = kv(b"\x05", pi.witness_script.raw_serialize())
+        if not ser_in.startswith(wu) or ws_old not in ser_in:
+            return None
+        m2 = w.m - 1 if w.m > 1 else w.m + 1
+        foreign = [80 + m2] + pi.witness_script.commands[1:]
+        if name == "witness_script_without_witness_utxo":
+            # only the non-witness UTXO, and a WitnessScript with another threshold
+            body = ser_in[len(wu):].replace(ws_old, kv(b"\x05", WitnessScript(foreign).raw_serialize()))
+            return splice_input(raw, q, 0, kv(b"\x00", b.prev_txs[0].serialize()) + body)
+        # the witness UTXO stays; the script travels as a RedeemScript
+        return splice_input(raw, q, 0, ser_in.replace(ws_old, kv(b"\x04", RedeemScript(foreign).raw_serialize())))
     if name == "missing_cosigner_key":
         if cpos is None or w.n < 2:
             return None
@@ -451,7 +483,8 @@ def finding_witnesses():
     res = []
     for fid, name, st in (("F11a", "one_cosigner_change", "p2sh"), ("F11b", "swap_change_spk", "p2sh"),
                           ("F11c", "nonstandard_spk_with_hash", "p2wsh"), ("F11d", "utxo_amount", "p2sh"),
-                          ("F11e", "extra_script_commands", "p2wsh"), ("F11f", "witness_utxo_on_legacy", "p2sh")):
+                          ("F11e", "extra_script_commands", "p2wsh"), ("F11f", "witness_utxo_on_legacy", "p2sh"),
+                          ("F11g", "witness_script_without_witness_utxo", "p2wsh"), ("F11g", "redeem_on_native_segwit", "p2wsh")):
         rng = random.Random(f"C11-finding-{fid}")
         w = PC.make_wallet(rng, 2, 3, st)
         b = PC.build_psbt(rng, w, n_inputs=1, n_spend=1, with_change=True, global_xpubs=True)
@@ -473,7 +506,7 @@ def psbt_specs(ctx):
     specs = []
     combos = [(st, m, n) for st in ("p2sh", "p2wsh") for n in range(1, 5) for m in range(1, n + 1)]
     extra = [("p2sh-p2wsh", 2, 3), ("p2sh-p2wsh", 1, 2)]
-    total = ctx.n(100, 1200)
+    total = int(os.environ.get("VERIF_C11_PSBTS", "0")) or ctx.n(100, 1200)   # env knob: debugging only
     for k in range(total):
         if k < len(combos):
             st, m, n = combos[k]
